@@ -511,6 +511,42 @@ impl Universe {
             push("spin", b.finalize_as_transaction());
         }
 
+        // 30 consensus-parameters upgrade by the privileged address A (version 0 -> 1; only the block gas limit moves by one)
+        {
+            use fuel_core_types::{fuel_crypto::Hasher, fuel_tx::UpgradePurpose};
+            let mut next = cp.clone();
+            next.set_block_gas_limit(cp.block_gas_limit().saturating_add(1));
+            let serialized: Vec<u8> = {
+                use fuel_core_storage::codec::{postcard::Postcard, Encode, Encoder};
+                <Postcard as Encode<ConsensusParameters>>::encode(&next).as_bytes().into_owned()
+            };
+            let checksum = Hasher::hash(&serialized);
+            let mut b = TransactionBuilder::upgrade(UpgradePurpose::ConsensusParameters { witness_index: 0, checksum });
+            b.with_params(cp.clone()).max_fee_limit(MAX_FEE);
+            b.add_witness(Witness::from(serialized));
+            b.add_unsigned_coin_input(ska, gid(30), COIN, base, z).add_output(Output::change(addr_a, 0, base));
+            push("upgrade_cp", b.finalize_as_transaction());
+        }
+        // 31, 32 upload of a two-part bytecode (part 1 is only valid after part 0)
+        {
+            use fuel_core_types::fuel_tx::{UploadBody, UploadSubsection};
+            let bytecode = vec![0xABu8; 48];
+            let parts = UploadSubsection::split_bytecode(&bytecode, 24).expect("split bytecode");
+            for (name, part, slot) in [("upload0", &parts[0], 34u8), ("upload1", &parts[1], 35u8)] {
+                let mut b = TransactionBuilder::upload(UploadBody {
+                    root: part.root,
+                    witness_index: 0,
+                    subsection_index: part.subsection_index,
+                    subsections_number: part.subsections_number,
+                    proof_set: part.proof_set.clone(),
+                });
+                b.with_params(cp.clone()).max_fee_limit(MAX_FEE);
+                b.add_witness(Witness::from(part.subsection.clone()));
+                b.add_unsigned_coin_input(ska, gid(slot), COIN, base, z).add_output(Output::change(addr_a, 0, base));
+                push(name, b.finalize_as_transaction());
+            }
+        }
+
         // ---- forced transactions and relayer script ---------------------------
         let forced_ok = {
             let mut b = script(vec![], vec![]);
